@@ -206,6 +206,9 @@ func cmdCancelRun(args []string) error {
 			if cur := env.EVM.Tracer().CallTree().Current(); cur != nil {
 				runOracle = append(runOracle, fmt.Sprintf("C17: call %d left open in the call tree after a cancelled execution", cur.Index))
 			}
+			if tr.cancelled && !env.EVM.Cancelled() {
+				runOracle = append(runOracle, "C17: Cancelled() reports false after Cancel()")
+			}
 			if !tr.cancelled {
 				runOracle = append(runOracle, fmt.Sprintf("C17: the same execution has %d steps in one run and fewer than %d in the next", total, k+1))
 			}
